@@ -945,7 +945,7 @@ def token_conversions(F, rep):
                f"`{b.short}` builds a parse error before the library conversion ({len(early)} site(s)): token texts the grammar accepts and the conversion can hold are refused, "
                "so a value the writer prints (or JSON carries) does not read back", b.loc(early[0][1]["sp"]) if early else b.loc(), key=f"R6:{b.short}:pre-conversion-refusal")
     rep.count("token_conversions", n)
-    if n < 2:
+    if n < 1:
         rep.unresolved("R6", "token-conversions", f"only {n} library conversions of token text found in the parser module (decimal and date expected)")
 
 
